@@ -143,7 +143,10 @@ def check_month_adders(P, R, tu):
             R.finding(rule, fn, "carry start", "the carry starts as %s, not month + n" % env0[carry], final[0])
         for lp in loops:
             bd = lp["c"][-1]
-            eff = _effect(fn, [bd])
+            turn = [bd]
+            if lp.get("k") == "ForStmt" and len(lp["c"]) >= 4 and lp["c"][2] is not None:
+                turn.append(lp["c"][2])         # the advance in the head of a `for` belongs to the turn
+            eff = _effect(fn, turn)
             if eff is None:
                 R.finding(rule, fn, "loop body", "a loop body of the month adder is not a linear update of year and carry", lp)
                 continue
